@@ -18,8 +18,12 @@ TRUSTED_BASE = [
     "hand-written model C10_Model.v + C11_Model.v tied to /repo by the differential run of this check (Go harness "
     "harness/c11 = rig harness/c10/rig.go: real controller, real ClusterInfo.Sync, real admission plugin, and a "
     "second fresh controller per history)",
-    "modelled not verified: sync.Map / atomic.Value, informer and syncqueue (events are delivered by the harness one at "
-    "a time; requeues are explicit retry ops), component-base feature gates (a gate list), limiter internals beyond "
+    "the controller is built by the real constructor over a stub informer that keeps the registered event handler; in "
+    "half of the histories add / update / delete / tombstone-delete (cache.DeletedFinalStateUnknown) events go through "
+    "that real handler (queue.ResourceEventHandler) and the real worker step (processNextWorkItem); a tombstone delete is "
+    "a delete in the model",
+    "modelled not verified: sync.Map / atomic.Value, the informer itself and the queue's timing (events are handed over "
+    "one at a time; requeues are explicit retry ops that re-enqueue the same object), component-base feature gates (a gate list), limiter internals beyond "
     "String(), tls/x509 parsing (PEM identified by index), health checking (IsReady is false: no endpoint answers)",
 ]
 ASSUMPTIONS = [
